@@ -52,9 +52,18 @@ Definition to_i32 (x : N) : Z :=
   if x <? 2147483648 then Z.of_N x else (Z.of_N x - 4294967296)%Z.
 Definition of_i32 (z : Z) : N := Z.to_N (z mod 4294967296)%Z.
 
-(* take / drop with N counts, structural on the list *)
-Definition takeN {A} (n : N) (l : list A) : list A := firstn (N.to_nat n) l.
-Definition dropN {A} (n : N) (l : list A) : list A := skipn (N.to_nat n) l.
+(* take / drop with N counts, structural on the list (never converts a
+   data-dependent size to nat) *)
+Fixpoint takeN {A} (n : N) (l : list A) : list A :=
+  match l with
+  | [] => []
+  | x :: t => if n =? 0 then [] else x :: takeN (N.pred n) t
+  end.
+Fixpoint dropN {A} (n : N) (l : list A) : list A :=
+  match l with
+  | [] => []
+  | x :: t => if n =? 0 then l else dropN (N.pred n) t
+  end.
 
 Fixpoint zeros (n : nat) : bytes :=
   match n with O => [] | S k => 0 :: zeros k end.
